@@ -131,6 +131,26 @@ func pairedMutantsJ2K(b []byte, rng *Rand) []mutant {
 			}
 		}
 	}
+	// code-block style bits x shortened tile data: a style bit changes which decoding entry point gets the
+	// block (TERMALL/bypass: per-pass lengths from the packet header), a truncated tile makes the lengths the
+	// packet header announced exceed the bytes present - each alone is handled, the pair is its own path
+	if cod != nil && cod.plen >= 10 && len(b) > cod.payload+8 {
+		for _, bit := range []byte{0x04, 0x01, 0x05, 0x02, 0x08, 0x10, 0x20, 0x3F} {
+			for _, cut := range []int{1, 2, 3, 4, 5, 6, 8, 11, 16, 24, len(b) / 8, len(b) / 4} {
+				if cut <= 0 || cut+2 >= len(b)-cod.payload-12 {
+					continue
+				}
+				for _, keepEOC := range []bool{false, true} {
+					m := append([]byte(nil), b[:len(b)-cut]...)
+					if keepEOC && len(m) >= 2 {
+						m = append(append([]byte(nil), b[:len(b)-cut-2]...), 0xFF, 0xD9)
+					}
+					m[cod.payload+8] |= bit
+					out = append(out, mutant{m, "pair.cod.style-bit+truncated-tile"})
+				}
+			}
+		}
+	}
 	bad := []int{csiz, csiz + 1, 200, 255}
 	for _, s := range segs {
 		switch s.marker {
